@@ -212,6 +212,7 @@ def conds(tier):
                        fixed={"m": m, "n": n, "L": L, "mark": 0},
                        pre=[e1_wf_expr(m, n), "_h.seq_ok(%s)" % ", ".join("t%d" % i for i in range(1, L + 1))],
                        shard=["t1"] + (["t2"] if L >= 3 or (m * n >= 9 and not q) else []) + (["lp1"] if m * n >= 12 else []),
+                       skip=lambda sf: not prereq_ok([sf[k] for k in ("t1", "t2") if k in sf]),
                        timeout=600 if q else 3000, functions=FUNCS,
                        note="all prerequisite-respecting programs of length %d" % L))
     return cs
